@@ -249,6 +249,25 @@ func checkC09(c *Ctx) {
 		}
 		bws = append(bws, bw{"cfgws", files, append(st, q...), len(q)})
 	}
+	// many files, fewer symbols than workspace/symbol's 200-entry cap: the per-file symbol workers run in parallel
+	{
+		files := map[string]string{}
+		for f := 0; f < 24; f++ {
+			var sb strings.Builder
+			for i := 0; i < 6; i++ {
+				fmt.Fprintf(&sb, "cfgkey_%d_%d = %d\n", f, i, i)
+			}
+			fmt.Fprintf(&sb, "function other_%d(a) return a end\n", f)
+			files[fmt.Sprintf("mod%02d.lua", f)] = sb.String()
+		}
+		q := []proto.Step{
+			{M: "workspace/symbol", P: json.RawMessage(`{"query":"cfgkey"}`)},
+			{M: "workspace/symbol", P: json.RawMessage(`{"query":"cfgkey_3_"}`)},
+			{M: "workspace/symbol", P: json.RawMessage(`{"query":"other_1"}`)},
+			{M: "textDocument/references", P: refParams("mod03.lua", 2, 2)},
+		}
+		bws = append(bws, bw{"symbols24", files, append([]proto.Step{openStep("mod03.lua", files["mod03.lua"])}, q...), len(q)})
+	}
 	repoRoot := "/repo"
 	if alt := os.Getenv("VERIF_REPO"); alt != "" {
 		repoRoot = alt
@@ -302,7 +321,7 @@ func checkC09(c *Ctx) {
 	id = 0
 	for bi, b := range bws {
 		for pi := range pools {
-			for r := 0; r < reps; r++ {
+			for r := 0; r < reps*3; r++ { // these runs are cheap: three times the repetitions of part A
 				id++
 				idB[id] = bi
 				groupsB[pi] = append(groupsB[pi], []*proto.Case{{ID: id, Files: b.files, Init: json.RawMessage(allOnLocal), Steps: b.steps}})
@@ -353,7 +372,7 @@ func checkC09(c *Ctx) {
 		}
 		sort.Strings(vs)
 		da, db := diffSets(strings.Split(vs[0], "\n"), strings.Split(vs[1], "\n"))
-		desc := fmt.Sprintf("workspace %s analysed %d times gives %d different results; e.g. only in one run: %v / only in another: %v", b.name, reps*len(pools), len(outsB[bi]), trimList(da, 4), trimList(db, 4))
+		desc := fmt.Sprintf("workspace %s analysed %d times gives %d different results; e.g. only in one run: %v / only in another: %v", b.name, 3*reps*len(pools), len(outsB[bi]), trimList(da, 4), trimList(db, 4))
 		raw, _ := json.Marshal(map[string]interface{}{"fam": "repeat", "workspace": b.name})
 		if surveyMode {
 			sv.add("repeat differs "+b.name, desc)
